@@ -1314,6 +1314,15 @@ private:
 
   bool doAddListener(const ListenerCfg &lc)
   {
+    // Fail closed: a TLS listener was requested but no server TLS context exists
+    // (serverTls not enabled / defaultMode not Server). Binding anyway would accept
+    // and serve PLAINTEXT sessions on a listener the caller asked to be TLS.
+    if (lc.tls == TlsMode::Server && !(_config.serverTls.enabled && _sslSrv))
+    {
+      err(TransportError::Config, "TLS listener requested but serverTls is not enabled");
+      return false;
+    }
+
     int sfd = -1;
     sockaddr_storage ss{};
     socklen_t sl = 0;
@@ -1479,6 +1488,19 @@ private:
 
   bool doConnect(const ConnectReq &cr)
   {
+    // Fail closed: TLS was requested for this session but no client TLS context
+    // exists (clientTls not enabled / defaultMode not Client). Falling through would
+    // silently open a PLAINTEXT session and announce it as connected.
+    if (cr.tls == TlsMode::Client && !(_config.clientTls.enabled && _sslCli))
+    {
+      const std::string msg = "TLS requested for connect but clientTls is not enabled";
+      decltype(_cbs.onClose) closeCb;
+      { std::lock_guard<std::mutex> g(_cbMutex); closeCb = _cbs.onClose; }
+      if (closeCb) closeCb(cr.sid, TransportErrorInfo{TransportError::Config, msg});
+      err(TransportError::Config, msg);
+      return false;
+    }
+
     addrinfo hints{};
     hints.ai_family = AF_UNSPEC;
     hints.ai_socktype = SOCK_STREAM;
